@@ -1,5 +1,6 @@
 """C19: check configuration (PROP) and MANIFEST texts (TEXT)."""
 PROP = dict(
+    tables=["C01"],
     n_quick=300, n_thorough=4000, audit=8, audit_maxlen=3000,
     rule="pairs (current, proposed) of parameter sets: null / compact / full with empty, short and long scripts and fedpeg data, any witness limit, extension spaces of "
          "0..256 entries; roots of both, of the compact form, of FullParams::calculate_root and of the header are compared with the model and recomputed from the fields "
